@@ -11,14 +11,17 @@ META = {
         "14.a2 the seven days of a week are its first day and the six days after it",
         "14.b the week reported for a date contains it and starts on the chosen weekday (every date, every start)",
         "14.L reference-calendar lemma for the small-step stand-in",
+        "14.c stepping a civil week by n moves its first day by 7n and lands on a valid week index, for every month-start / month-length table, start weekday, valid index and |n| <= 6 (engine B; month-border loop unrolled with the bound proved)",
+        "14.f the same for lunar weeks (month lengths 29..30); 14.g first day of a lunar week: weekday, position, coverage (engine B); 14.a/B the civil first-day clause again on engine B",
     ],
-    "outside": ["14.c stepping a week by n (SolarWeek::next: symbolic execution of its month-border loop with string-compared weekdays did not finish in 15 min)",
-                "14.d index of a week in its year", "lunar weeks (LunarWeek / LunarMonth::get_week_count)"],
+    "outside": ["14.d index of a week in its year", "lunar week -> its seven days, week of a lunar date",
+                "week stepping for |n| > 6 (civil) / 8 (lunar)"],
     "assumptions": [
         "SolarDay::get_julian_day = (day count of the month's 1st) + days between - 0.5 (refcal::rel_offset, sums of month lengths; 01.c/01.r/13.L); the day count of the 1st is one concrete representative per weekday (7 jobs): magnitude bound, the weekday function itself is 07.a",
         "<SolarDay as Tyme>::next(n), |n| <= 45, = closed form refcal::near (lemma 14.L; 01.c/01.d/01.g); other uses are flagged, never assumed away",
         "AbstractCulture::index_of as a 32-bit computation for |index| < 2^30 (engine B: the real one is the mathematical mod)",
         "stub fmt_empty for std::fmt::format (error payloads)",
+        "engine B week kernels: months are objects on a month line with tiling first-day numbers (civil lengths any 21..31, lunar 29..30); the first of a month falls on weekday (day number + 1) mod 7 (07.a); index_of is the mathematical remainder (11.a); (x as f64 / 7.0).ceil() = ceiling division (exact for these magnitudes); Week equality = index equality (names are distinct: 11.d)",
         "quick tier: Monday (the real weekday of 1582-10-01) plus one more of the 7 weekdays of the 1st, rotated by VERIF_SEED; thorough: all 7",
     ],
 }
@@ -38,6 +41,14 @@ def jobs(tier, seed):
         J.append(Job("14.a/days/wd%d" % wd, "c14::c14a_days", [1, 9999, wd], stubs=STUBS, unwind=9, est=200, timeout=1500 if not T else 2400, mem_gb=4,
                      clause="14.a2", bound="every week of every month of years 1..9999; 1st of the month on weekday %d" % wd))
     return J
+
+def engine_b(tier, seed, scr):
+    from props._b import engine
+    from mir2smt import weeks
+    eng, err = engine(scr, "14.c/B/week-next", "14.c")
+    if eng is None:
+        return err
+    return [weeks.k_week_first_day(eng, False), weeks.k_week_first_day(eng, True), weeks.k_week_next(eng, True), weeks.k_week_next(eng, False)]
 
 def fallback_candidates(j):
     """concrete inputs for the native confirmation of a solver-flagged obligation (the body's draw order)"""
